@@ -81,3 +81,16 @@ macro_rules! cover { ($c:expr, $m:literal) => { kani::cover($c, $m) }; }
 #[cfg(not(kani))]
 #[macro_export]
 macro_rules! cover { ($c:expr, $m:literal) => { if $c { $crate::sym::native::cov($m) } }; }
+
+/// slot-by-slot array equality (array `==` compiles to a byte-wise memcmp loop, which would need unwind 4N+1)
+pub fn same<const N: usize>(a: [u32; N], b: [u32; N]) -> bool {
+    let mut ok = true;
+    let mut i = 0;
+    while i < N {
+        if a[i] != b[i] {
+            ok = false;
+        }
+        i += 1;
+    }
+    ok
+}
